@@ -290,7 +290,42 @@ func runWRScenario(sc wrScenario) (a wrAudit) {
 				if sc.Reads == 1 && rng.Intn(3) == 0 {
 					x = 9
 				}
+				if sc.Seed%3 == 0 && rng.Intn(3) == 0 {
+					x = 10 + rng.Intn(4) // the other writing operations
+				}
 				switch {
+				case x == 10:
+					if _, fresh := c.SetIfAbsent(k, v); fresh {
+						record(wrWrite{k, v, -1, "SetIfAbsent"})
+					}
+				case x == 11:
+					wrote := false
+					c.ComputeIfAbsent(k, func() (int, bool) { wrote = true; return v, false })
+					if wrote {
+						record(wrWrite{k, v, -1, "ComputeIfAbsent"})
+					}
+				case x == 12:
+					wrote, prev := false, -1
+					c.ComputeIfPresent(k, func(old int) (int, ComputeOp) {
+						prev = old
+						if old%3 == 0 {
+							return 0, InvalidateOp
+						}
+						if old%3 == 1 {
+							return old, CancelOp
+						}
+						wrote = true
+						return v, WriteOp
+					})
+					if wrote {
+						record(wrWrite{k, v, prev, "ComputeIfPresent"})
+					}
+				case x == 13:
+					if sc.Expiry == 1 {
+						c.SetExpiresAfter(k, time.Duration(1+rng.Intn(3))*time.Hour)
+					} else {
+						c.GetEntry(k)
+					}
 				case x < 6:
 					old, fresh := c.Set(k, v)
 					prev := -1
